@@ -764,16 +764,43 @@ theorem select_declared_2xx (rs : List Resp) (s : Nat) (h2 : 200 ≤ s ∧ s < 3
     simp only [if_true, Option.some.injEq] at hya
     rw [← hya]
 
-theorem strategyRet_needsStructure {s : Strategy} {r : Reply} (hu : s.isUnion = false)
-    (h : (strategyRet s r).needsStructure = true) : ∃ t, s = .single t ∧ useCattrs t = true := by
+theorem tyDispatchRet_needsStructure {t : PyTy} (h : (tyDispatchRet t).needsStructure = true) :
+    useCattrs t = true := by
+  unfold tyDispatchRet at h
+  split at h
+  · simp [RetKind.needsStructure] at h
+  · split at h
+    · simp [RetKind.needsStructure] at h
+    · cases ht : useCattrs t
+      · simp [tyRet, ht, RetKind.needsStructure] at h
+      · rfl
+
+theorem unionDispatch_needsStructure {ct : Str} {m : List (Str × PyTy)}
+    (h : (unionDispatch ct m).needsStructure = true) : m.any (fun e => useCattrs e.2) = true := by
+  induction m with
+  | nil => simp [unionDispatch, RetKind.needsStructure] at h
+  | cons e rest ih =>
+    obtain ⟨k, t⟩ := e
+    cases rest with
+    | nil =>
+      simp only [unionDispatch] at h
+      simp [tyDispatchRet_needsStructure h]
+    | cons e2 rest2 =>
+      simp only [unionDispatch] at h
+      split at h
+      · simp [tyDispatchRet_needsStructure h]
+      · have := ih h
+        rw [List.any_cons]; simp [this]
+
+theorem strategyRet_needsStructure {s : Strategy} {r : Reply}
+    (h : (strategyRet s r).needsStructure = true) : s.usesStructure = true := by
   cases s with
   | none => simp [strategyRet, RetKind.needsStructure] at h
   | single t =>
-    refine ⟨t, rfl, ?_⟩
     cases ht : useCattrs t
     · simp [strategyRet, tyRet, ht, RetKind.needsStructure] at h
-    · rfl
-  | union m => simp [Strategy.isUnion] at hu
+    · simpa [Strategy.usesStructure] using ht
+  | union m => exact unionDispatch_needsStructure h
   | streamBytes => simp [strategyRet, RetKind.needsStructure] at h
   | streamSse => simp [strategyRet, RetKind.needsStructure] at h
 
@@ -817,9 +844,10 @@ theorem select_retSecondary {rs : List Resp} {s : Nat} {k : RetKind} (h : select
       split at h' <;> cases h'
     · exact ⟨y, hy, a.1, by rw [hya, ← h]⟩
 
-/-- Outside the `Union` dispatch a selected return arm never hits the missing-import `NameError`. -/
+/-- A selected return arm never hits the missing-import `NameError` (since the repair of F58 this includes the
+    `Union` content-type dispatch). -/
 theorem runAction_returns {rs : List Resp} {r : Reply} {s : Nat}
-    (hu : (resolveStrategy rs).isUnion = false) (hret : (selectAction rs s).isReturn = true) :
+    (hret : (selectAction rs s).isReturn = true) :
     ∃ k, runAction rs r (selectAction rs s) = .returned k := by
   cases ha : selectAction rs s with
   | retNone => exact ⟨_, rfl⟩
@@ -829,10 +857,9 @@ theorem runAction_returns {rs : List Resp} {r : Reply} {s : Nat}
     · next hc =>
       exfalso
       simp only [Bool.and_eq_true, Bool.not_eq_true'] at hc
-      obtain ⟨t, ht, hct⟩ := strategyRet_needsStructure hu hc.1
+      have hct := strategyRet_needsStructure hc.1
       have := hc.2
       unfold importsStructure at this
-      rw [ht] at this
       simp only [hct, Bool.true_and, Bool.or_eq_false_iff] at this
       rcases select_retStrategy ha with h | h
       · rw [h] at this; simp at this
